@@ -384,8 +384,8 @@ EXTRA_COVERAGE = extra_coverage
 
 LEGS = [
     Leg("codes", chk_codes, enum=enum_codes, exhaustive=True, doc="altitude/squawk/gray2alt on every bit string; py vs emulated .pyx, and emulated pinned .pyx vs binary"),
-    Leg("frame_functions", chk_frames, strategy=s_frames, quick=20000, thorough=1000000, doc="df/typecode/icao/crc/idcode/altcode/data/allzeros/hex2bin/hex2int on frames"),
-    Leg("misc_functions", chk_misc, strategy=s_misc, quick=20000, thorough=1000000, doc="bin2int/bin2hex/floor/is_icao_assigned/wrongstatus/cprNL"),
-    Leg("decoders", chk_decoders, strategy=s_decframe, quick=6000, thorough=300000, doc="every unary decoder + tell in two package copies"),
-    Leg("cpr_decoders", chk_pairs, strategy=s_pairs, quick=6000, thorough=300000, doc="position / position_with_ref in two package copies"),
+    Leg("frame_functions", chk_frames, strategy=s_frames, quick=20000, thorough=500000, doc="df/typecode/icao/crc/idcode/altcode/data/allzeros/hex2bin/hex2int on frames"),
+    Leg("misc_functions", chk_misc, strategy=s_misc, quick=20000, thorough=500000, doc="bin2int/bin2hex/floor/is_icao_assigned/wrongstatus/cprNL"),
+    Leg("decoders", chk_decoders, strategy=s_decframe, quick=6000, thorough=150000, doc="every unary decoder + tell in two package copies"),
+    Leg("cpr_decoders", chk_pairs, strategy=s_pairs, quick=6000, thorough=150000, doc="position / position_with_ref in two package copies"),
 ]
